@@ -11,11 +11,13 @@ import (
 	_ "verifh/props/c07"
 	_ "verifh/props/c08"
 	_ "verifh/props/c09"
+	_ "verifh/props/c10"
 	_ "verifh/props/c11"
 	_ "verifh/props/c12"
 	_ "verifh/props/c13"
 	_ "verifh/props/c14"
 	_ "verifh/props/c16"
+	_ "verifh/props/c17"
 	_ "verifh/props/c18"
 	_ "verifh/props/c19"
 	_ "verifh/props/c20"
